@@ -13,6 +13,10 @@ def main():
     prop, tier, seed, mirfile, out = sys.argv[1:6]
     only = sys.argv[6].split(",") if len(sys.argv) > 6 and sys.argv[6] else None
     funcs, consts = parse_mir(open(mirfile).read())
+    import os
+    from mirslice import load_enums
+    src = os.environ.get("VERIF_SRC") or os.path.join(os.path.dirname(os.path.abspath(mirfile)), "src")
+    load_enums(src if os.path.isdir(src) else os.path.join(os.environ.get("VERIF_REPO", "/repo"), "src"))
     ctx = specs.Ctx(funcs, consts, tier, int(seed))
     res = []
     for sp in specs.SPECS.get(prop, []):
